@@ -605,14 +605,22 @@ impl FormatSpec {
     {
         self.validate_format(FormatType::String)?;
         match self.format_type {
-            Some(FormatType::String) | None => self
-                .format_sign_and_align(s, "", FormatAlign::Left)
-                .map(|mut value| {
-                    if let Some(precision) = self.precision {
-                        value.truncate(precision);
+            Some(FormatType::String) | None => {
+                // The precision is a number of characters, and it applies before padding.
+                let truncated = self.precision.and_then(|precision| {
+                    let (index, _) = s.char_indices().nth(precision)?;
+                    Some(TruncatedStr {
+                        inner: &s[..index],
+                        char_len: precision,
+                    })
+                });
+                match truncated {
+                    Some(truncated) => {
+                        self.format_sign_and_align(&truncated, "", FormatAlign::Left)
                     }
-                    value
-                }),
+                    None => self.format_sign_and_align(s, "", FormatAlign::Left),
+                }
+            }
             _ => {
                 let ch = char::from(self.format_type.as_ref().unwrap());
                 Err(FormatSpecError::UnknownFormatCode(ch, "str"))
@@ -692,6 +700,24 @@ impl CharLen for AsciiStr<'_> {
 }
 
 impl Deref for AsciiStr<'_> {
+    type Target = str;
+    fn deref(&self) -> &Self::Target {
+        self.inner
+    }
+}
+
+struct TruncatedStr<'a> {
+    inner: &'a str,
+    char_len: usize,
+}
+
+impl CharLen for TruncatedStr<'_> {
+    fn char_len(&self) -> usize {
+        self.char_len
+    }
+}
+
+impl Deref for TruncatedStr<'_> {
     type Target = str;
     fn deref(&self) -> &Self::Target {
         self.inner
